@@ -1173,8 +1173,9 @@ func checkExecuteFromSlave(reqCtx *util.RequestContext, c *SessionExecutor, sql 
 		if len(tokens) < 2 {
 			return true
 		}
-		lastFirstWord := strings.ToLower(tokens[tokensLen-1])
-		lastSecondWord := strings.ToLower(tokens[tokensLen-2])
+		// the locking clause is looked for at the end of the statement proper: comments
+		// (drivers append trace comments) and a final semicolon do not count
+		lastSecondWord, lastFirstWord := lastTwoWordsOfStatement(sql)
 		if (lastFirstWord == "update" && lastSecondWord == "for") ||
 			(lastFirstWord == "mode" && lastSecondWord == "share") ||
 			(lastFirstWord == "share" && lastSecondWord == "for") ||
@@ -1201,12 +1202,19 @@ func checkExecuteFromSlave(reqCtx *util.RequestContext, c *SessionExecutor, sql 
 		}
 	}
 
-	// handle master hint
+	// handle master hint: a /*master*/ comment anywhere outside quoted text
+	if hasMasterHintComment(sql) {
+		return false
+	}
 	if len(tokens) > 1 && util.LowerEqual(tokens[1], masterHint) {
 		return false
 	}
-	// handle master hint
-	if len(tokens) > 1 && util.LowerEqual(tokens[tokensLen-1], masterHint) {
+	// handle master hint at the end of the statement (a final semicolon does not hide it)
+	lastIdx := tokensLen - 1
+	for lastIdx > 1 && strings.Trim(tokens[lastIdx], ";") == "" {
+		lastIdx--
+	}
+	if len(tokens) > 1 && util.LowerEqual(strings.TrimRight(tokens[lastIdx], ";"), masterHint) {
 		return false
 	}
 
@@ -1214,6 +1222,117 @@ func checkExecuteFromSlave(reqCtx *util.RequestContext, c *SessionExecutor, sql 
 }
 
 // 如果是只读用户, 且SQL是INSERT, UPDATE, DELETE, 则拒绝执行, 返回true
+// hasMasterHintComment reports whether the statement carries a /*master*/ block comment
+// outside quoted text, wherever it stands (other comments or a semicolon may follow it).
+func hasMasterHintComment(sql string) bool {
+	n := len(sql)
+	for i := 0; i < n; i++ {
+		ch := sql[i]
+		switch {
+		case ch == '\'' || ch == '"' || ch == '`':
+			j := i + 1
+			for j < n {
+				if sql[j] == '\\' && ch != '`' && j+1 < n {
+					j += 2
+					continue
+				}
+				if sql[j] == ch {
+					if j+1 < n && sql[j+1] == ch {
+						j += 2
+						continue
+					}
+					break
+				}
+				j++
+			}
+			i = j
+		case ch == '/' && i+1 < n && sql[i+1] == '*':
+			end := strings.Index(sql[i+2:], "*/")
+			if end < 0 {
+				return false
+			}
+			if strings.EqualFold(sql[i+2:i+2+end], "master") {
+				return true
+			}
+			i = i + 2 + end + 1
+		}
+	}
+	return false
+}
+
+// lastTwoWordsOfStatement returns, lower-cased, the last two words of a statement
+// ignoring comments (/* */, -- and #) outside quoted text, white space and semicolons.
+func lastTwoWordsOfStatement(sql string) (second string, last string) {
+	var words []string
+	var cur []byte
+	flush := func() {
+		if len(cur) > 0 {
+			words = append(words, strings.ToLower(string(cur)))
+			if len(words) > 2 {
+				words = words[len(words)-2:]
+			}
+			cur = cur[:0]
+		}
+	}
+	n := len(sql)
+	for i := 0; i < n; i++ {
+		ch := sql[i]
+		switch {
+		case ch == '\'' || ch == '"' || ch == '`':
+			// quoted text is one opaque word
+			flush()
+			j := i + 1
+			for j < n {
+				if sql[j] == '\\' && ch != '`' && j+1 < n {
+					j += 2
+					continue
+				}
+				if sql[j] == ch {
+					if j+1 < n && sql[j+1] == ch {
+						j += 2
+						continue
+					}
+					break
+				}
+				j++
+			}
+			words = append(words, "<quoted>")
+			if len(words) > 2 {
+				words = words[len(words)-2:]
+			}
+			i = j
+		case ch == '/' && i+1 < n && sql[i+1] == '*':
+			flush()
+			end := strings.Index(sql[i+2:], "*/")
+			if end < 0 {
+				i = n
+			} else {
+				i = i + 2 + end + 1
+			}
+		case ch == '#' || (ch == '-' && i+2 < n && sql[i+1] == '-' && (sql[i+2] == ' ' || sql[i+2] == '\t' || sql[i+2] == '\n')) || (ch == '-' && i+2 == n && sql[i+1] == '-'):
+			flush()
+			end := strings.IndexByte(sql[i:], '\n')
+			if end < 0 {
+				i = n
+			} else {
+				i = i + end
+			}
+		case ch == ' ' || ch == '\t' || ch == '\n' || ch == '\r' || ch == ';' || ch == ',' || ch == '(' || ch == ')':
+			flush()
+		default:
+			cur = append(cur, ch)
+		}
+	}
+	flush()
+	switch len(words) {
+	case 0:
+		return "", ""
+	case 1:
+		return "", words[0]
+	}
+	return words[len(words)-2], words[len(words)-1]
+}
+
 func isSQLNotAllowedByUser(c *SessionExecutor, stmtType int) bool {
 	if c.GetNamespace().IsAllowWrite(c.user) {
 		return false
@@ -1361,7 +1480,7 @@ func (se *SessionExecutor) handleShow(reqCtx *util.RequestContext, sql string) (
 		reqCtx.SetFromSlave(true)
 	}
 	// handle show variables like '%read_only%' default to master
-	if strings.Contains(sql, readonlyVariable) && se.GetNamespace().IsAllowWrite(se.user) {
+	if strings.Contains(strings.ToLower(sql), readonlyVariable) && se.GetNamespace().IsAllowWrite(se.user) {
 		reqCtx.SetFromSlave(false)
 	}
 	r, err := se.ExecuteSQL(reqCtx, se.GetNamespace().GetDefaultSlice(), se.db, sql)
